@@ -13,7 +13,9 @@ import (
 	"strconv"
 	"strings"
 	"sync"
+	"sync/atomic"
 	"testing"
+	"time"
 )
 
 // envInt reads an integer environment variable with a default.
@@ -72,13 +74,109 @@ func (w *opsWriter) add(op, impl string) {
 	fmt.Fprintln(w.impl, impl)
 	w.lastImpl = impl
 	w.n++
+	wdProgress.Add(1)
+	wdActive.Store(w)
 }
 
 func (w *opsWriter) close() {
+	wdActive.CompareAndSwap(w, nil)
+	w.mu.Lock()
+	defer w.mu.Unlock()
 	w.ops.Flush()
 	w.impl.Flush()
 	w.fo.Close()
 	w.fi.Close()
+}
+
+// ---- hang watchdog ----
+//
+// A goroutine blocked on a sync.Mutex is not "durably blocked" for synctest,
+// so an endpoint that deadlocks on a mutex makes synctest.Wait (and with it the
+// whole world) hang.  The watchdog runs outside every bubble on the real clock:
+// when a world that is writing operations makes no progress for
+// VERIF_HANG_SECS it records the operation being executed with the answer
+// "HANG <library functions blocked on a mutex>" and ends the process, so that
+// the scenario up to the hang is the replay.
+
+var (
+	wdProgress atomic.Int64
+	wdActive   atomic.Pointer[opsWriter]
+	wdCurOp    atomic.Pointer[string]
+)
+
+// beginOp names the operation about to be executed (for the watchdog).
+func beginOp(op string) {
+	wdCurOp.Store(&op)
+	wdProgress.Add(1)
+}
+
+func blockedOnMutex() string {
+	buf := make([]byte, 1<<22)
+	buf = buf[:runtime.Stack(buf, true)]
+	seen := map[string]bool{}
+	var out []string
+	for _, g := range strings.Split(string(buf), "\n\n") {
+		if !strings.Contains(g, "sync.(*Mutex).Lock") && !strings.Contains(g, "sync.(*RWMutex).Lock") &&
+			!strings.Contains(g, "sync.(*RWMutex).RLock") && !strings.Contains(g, "sync.runtime_SemacquireMutex") &&
+			!strings.Contains(g, "sync.runtime_SemacquireRWMutex") {
+			continue
+		}
+		for _, line := range strings.Split(g, "\n") {
+			if i := strings.Index(line, "github.com/jhump/grpctunnel."); i == 0 {
+				f := line[len("github.com/jhump/grpctunnel."):]
+				if j := strings.LastIndex(f, "("); j > 0 {
+					f = f[:j]
+				}
+				if !seen[f] {
+					seen[f] = true
+					out = append(out, f)
+				}
+				break
+			}
+		}
+	}
+	if len(out) == 0 {
+		return "no-library-goroutine-blocked-on-a-mutex"
+	}
+	return strings.Join(out, ",")
+}
+
+func watchdog() {
+	limit := time.Duration(envInt("VERIF_HANG_SECS", 30)) * time.Second
+	last, since := int64(-1), time.Now()
+	for {
+		time.Sleep(time.Second)
+		w := wdActive.Load()
+		if w == nil {
+			last, since = -1, time.Now()
+			continue
+		}
+		if p := wdProgress.Load(); p != last {
+			last, since = p, time.Now()
+			continue
+		}
+		if time.Since(since) < limit {
+			continue
+		}
+		op := "?"
+		if s := wdCurOp.Load(); s != nil {
+			op = *s
+		}
+		blocked := blockedOnMutex()
+		w.mu.Lock()
+		fmt.Fprintln(w.ops, op)
+		fmt.Fprintln(w.impl, "HANG blocked="+blocked)
+		w.ops.Flush()
+		w.impl.Flush()
+		w.mu.Unlock()
+		fmt.Fprintf(os.Stderr, "watchdog: no progress for %v during `%s`; blocked on a mutex: %s\n", limit, op, blocked)
+		os.Exit(3)
+	}
+}
+
+func TestMain(m *testing.M) {
+	go watchdog()
+	os.Exit(m.Run())
 }
 
 func hx(b []byte) string {
